@@ -253,7 +253,7 @@ Proof.
     destruct (i <? nsec - 1) eqn:El; cbn [andb].
     + change pe_aligns_mid_sections with true. cbv iota.
       apply Z.ltb_lt in El. replace (nsec - 1 <=? i) with false in Ea by (symmetry; apply Z.leb_gt; lia).
-      cbn [orb] in Ea. apply andb_true_iff in Ea. destruct Ea as [Ef Er]. apply negb_true_iff in Ef. rewrite Ef.
+      cbn [orb] in Ea. apply andb_true_iff in Ea. destruct Ea as [Ef Er]. apply negb_true_iff in Ef.
       unfold align32, pe_align_zero, pe_align_rem, pe_align_needed. rewrite Ef, Er. reflexivity.
     + reflexivity.
 Qed.
@@ -668,4 +668,56 @@ Proof.
   split.
   - intros pre E'. assert (P : pre = ex_pre) by congruence. subst pre. vm_compute. reflexivity.
   - rewrite E. cbn [bind]. apply (embed_defined_hashin ex_pe _ ex_pre); [vm_compute; reflexivity|exact E|vm_compute; discriminate].
+Qed.
+
+(* ================================================================== C11: DigestPE never panics, on any byte string
+   (after relic commits 53d79ae — optional header shorter than its magic — and 19efad9 — FileAlignment 0) *)
+Lemma read_nt_no_panic f p : read_nt f <> Panic p.
+Proof.
+  unfold read_nt.
+  repeat match goal with
+         | |- (if ?c then _ else _) <> _ =>
+             lazymatch c with
+             | (_ <? pe_optmagic_len) => fail
+             | _ => destruct c eqn:?; [discriminate|]
+             end
+         | |- (let _ := _ in _) <> _ => cbv zeta
+         end.
+  match goal with H : pe_opt_short ?n = false |- _ =>
+    unfold pe_opt_short in H; replace (n <? pe_optmagic_len) with false by (change pe_optmagic_len with 2; lia) end.
+  repeat match goal with
+         | |- (if ?c then _ else _) <> _ => destruct c; try discriminate
+         end.
+Qed.
+Lemma adjust_secs_no_panic : forall secs i nsec tblend falign soh p, adjust_secs secs i nsec tblend falign soh <> Panic p.
+Proof.
+  induction secs as [|[ptr size] r IH]; intros i nsec tblend falign soh p; cbn [adjust_secs]; [discriminate|].
+  destruct (pe_rs_skip_empty size).
+  - specialize (IH (i + 1) nsec tblend falign soh p). destruct (adjust_secs r (i + 1) nsec tblend falign soh); cbn [bind]; try discriminate. exact IH.
+  - destruct (pe_sec_overlaps_table ptr tblend); [discriminate|].
+    set (soh' := if pe_sec_before_hdr_end ptr soh && pe_hdr_shrinks_to_section then ptr else soh).
+    destruct (pe_sec_not_last i nsec && pe_aligns_mid_sections);
+      (specialize (IH (i + 1) nsec tblend falign soh' p); destruct (adjust_secs r (i + 1) nsec tblend falign soh'); cbn [bind]; try discriminate; exact IH).
+Qed.
+Lemma hash_secs_no_panic f : forall secs next p, hash_secs f secs next <> Panic p.
+Proof.
+  induction secs as [|[ptr size] r IH]; intros next p; cbn [hash_secs]; [discriminate|].
+  destruct (pe_dg_skip_empty size); [apply IH|].
+  destruct (pe_sec_not_contiguous ptr next); [discriminate|]. destruct (zlen f <? next + size); [discriminate|].
+  match goal with |- context [hash_secs f r ?n] => specialize (IH n p); destruct (hash_secs f r n) end; cbn [bind]; try discriminate. exact IH.
+Qed.
+Lemma read_trailer_no_panic f last cs sz p : read_trailer f last cs sz <> Panic p.
+Proof. unfold read_trailer. repeat match goal with |- (if ?c then _ else _) <> _ => destruct c; try discriminate end. Qed.
+Theorem digest_pe_no_panic f p : digest_pe f <> Panic p.
+Proof.
+  unfold digest_pe. pose proof (read_nt_no_panic f p) as H1.
+  destruct (read_nt f) as [hv| |]; cbn [bind]; try discriminate; [|intros X; apply H1; inversion X; reflexivity].
+  cbv zeta. destruct (pe_table_overlaps_hdr _ _); [discriminate|]. destruct (zlen f <? _); [discriminate|].
+  match goal with |- context [adjust_secs ?a ?b ?c ?d ?e ?g] => pose proof (adjust_secs_no_panic a b c d e g p) as H2; destruct (adjust_secs a b c d e g) as [adj| |] end;
+    cbn [bind]; try discriminate; [|intros X; apply H2; inversion X; reflexivity].
+  destruct (zlen f <? _); [discriminate|]. destruct (_ && _); [discriminate|].
+  match goal with |- context [hash_secs f ?a ?b] => pose proof (hash_secs_no_panic f a b p) as H3; destruct (hash_secs f a b) as [hs| |] end;
+    cbn [bind]; try discriminate; [|intros X; apply H3; inversion X; reflexivity].
+  match goal with |- context [read_trailer f ?a ?b ?c] => pose proof (read_trailer_no_panic f a b c p) as H4; destruct (read_trailer f a b c) as [tr| |] end;
+    cbn [bind]; try discriminate. intros X; apply H4; inversion X; reflexivity.
 Qed.
